@@ -267,6 +267,7 @@ func runC04(c *Ctx) {
 			c.Check("C04-R5", "deletePrivateKeys-deletes:"+want, dp.Pos(), deleted["waddrmgr."+want], "deletePrivateKeys does not delete "+want+": after conversion to watching-only the secret is still in the file")
 		}
 		checkMainBucketDeletes(c, "C04-R5")
+		checkStripperCoversRowKinds(c, "C04-R5")
 		checkInitAccountsConversion(c, "C04-R5")
 		// every success path passes the per-scope walk; row rewrites are checked by the row-rewrite rule (nil private slot)
 		checkRowRewrites(c, "C04-R5")
